@@ -3,10 +3,10 @@
 
     Only statements; proofs are in [Queues/Proofs*.v]. *)
 From Irismod Require Import Queues.Common.
-From Irismod Require Queues.Htlc Queues.ProofsHtlc Queues.CheckHtlc Queues.SoundHtlc.
-From Irismod Require Queues.Random Queues.ProofsRandom Queues.CheckRandom Queues.SoundRandom.
-From Irismod Require Queues.Farm Queues.ProofsFarm Queues.CheckFarm Queues.SoundFarm.
-From Irismod Require Queues.Service Queues.ProofsService Queues.CheckService Queues.SoundService.
+From Irismod Require Queues.Htlc Queues.ProofsHtlc Queues.CheckHtlc Queues.SoundHtlc Queues.PassHtlc.
+From Irismod Require Queues.Random Queues.ProofsRandom Queues.CheckRandom Queues.SoundRandom Queues.PassRandom.
+From Irismod Require Queues.Farm Queues.ProofsFarm Queues.CheckFarm Queues.SoundFarm Queues.PassFarm.
+From Irismod Require Queues.Service Queues.ProofsService Queues.CheckService Queues.SoundService Queues.PassService.
 
 (** ** HTLC (modules/htlc/abci.go: BeginBlocker; keeper/htlc.go) *)
 Module H.
@@ -63,6 +63,15 @@ Theorem htlc_check_hygiene_clause_sound :
     Queues.CheckHtlc.hhyg (Queues.SoundHtlc.obs_of (run (init h0) ops)) = true.
 Proof. exact Queues.SoundHtlc.hygiene_clause_holds_on_every_history. Qed.
 Print Assumptions htlc_check_hygiene_clause_sound.
+
+(** The model passes its own check: for every clean history [check_htlc], fed the observations
+    the MODEL produces, returns (-1,-1,0) — no divergence, and none of the clauses 11 (abort),
+    12 (hygiene), 13 (refunded exactly at the expiration height; closed contracts never change). *)
+Theorem model_passes_check_htlc :
+  forall h0 ops, Forall op_clean ops ->
+    Queues.CheckHtlc.check_htlc (h0, Queues.PassHtlc.mtrace (init h0) ops) = (-1, -1, 0).
+Proof. exact Queues.PassHtlc.model_passes_check_htlc. Qed.
+Print Assumptions model_passes_check_htlc.
 
 (** non-vacuity: a history with two contracts due at one height, one claimed in the last
     possible block, one refunded *)
@@ -141,6 +150,14 @@ Theorem random_check_hygiene_clause_sound :
 Proof. exact Queues.SoundRandom.hygiene_clause_holds_on_every_history. Qed.
 Print Assumptions random_check_hygiene_clause_sound.
 
+(** The model passes its own check, for EVERY history: [check_random] on the model's own trace
+    returns (-1,-1,0) — none of 21 (abort at a block time other than 0), 22 (hygiene; entries
+    vanish only in the block after their height), 23 (drained plain requests have their number). *)
+Theorem model_passes_check_random :
+  forall h0 ops, Queues.CheckRandom.check_random (h0, Queues.PassRandom.mtrace (init h0) ops) = (-1, -1, 0).
+Proof. exact Queues.PassRandom.model_passes_check_random. Qed.
+Print Assumptions model_passes_check_random.
+
 (** The interval guard (fix "random: reject a block interval ...") is what makes [r_future] hold: a request whose destination
     wraps below the current height is rejected. *)
 Example random_wrapping_interval_rejected :
@@ -216,6 +233,16 @@ Theorem farm_check_hygiene_clause_sound :
 Proof. exact Queues.SoundFarm.hygiene_clause_holds_on_every_history. Qed.
 Print Assumptions farm_check_hygiene_clause_sound.
 
+(** The model passes its own check: for every clean history the checker that is run on the
+    implementation's traces, fed the observations the MODEL produces, returns (-1,-1,0) — no
+    divergence and no clause of the C13 predicate (31 abort, 32 hygiene, 33 exactly once at the
+    end height) fires.  The predicate demands nothing the theorems do not give. *)
+Theorem model_passes_check_farm :
+  forall h0 ops, Forall op_clean ops ->
+    Queues.CheckFarm.check_farm (h0, Queues.PassFarm.mtrace (init h0) ops) = (-1, -1, 0).
+Proof. exact Queues.PassFarm.model_passes_check_farm. Qed.
+Print Assumptions model_passes_check_farm.
+
 (** non-vacuity: two pools ending together at height 6 (one adjusted to it in its last block),
     one pool destroyed in the block it falls due, one with nothing left to refund *)
 Example farm_nonvacuous :
@@ -258,11 +285,28 @@ Theorem service_one_entry_per_running_context :
 Proof. exact one_entry_per_running_context. Qed.
 Print Assumptions service_one_entry_per_running_context.
 
-(** The end-blocker has no aborting path (contexts created by MsgCallService: no module callback). *)
+(** The end-blocker never aborts on a state satisfying the invariant — including the callbacks of
+    the oracle and random modules that the expiration handler invokes (Keeper.Callback ->
+    HandlerResponse).  Both HandlerResponse dereference a nil error when called with no output
+    and no error, and random's when the seed has the wrong length
+    ([service_callback_would_abort_without_threshold]: the model has that abort); neither is
+    reachable, because a context owned by a module has a batch response threshold >= 1 (so "no
+    error" comes with an output) and a random context has a single request (so a batch that has
+    an output is completed, and a completed batch is not called back at its expiration). *)
 Theorem blocks_total_service :
-  forall s res, snd (step s (EndBlock res)) <> Abort.
+  forall s res, QInv s -> snd (step s (EndBlock res)) <> Abort.
 Proof. exact ProofsService.blocks_total_service. Qed.
 Print Assumptions blocks_total_service.
+
+Theorem service_callbacks_cannot_abort :
+  forall s id c, QInv s -> get id (ctxs s) = Some c -> negb (c_done c) && cb_aborts c = false.
+Proof. intros s id c Q Hg. apply cb_safe. exact (s_wf s Q _ _ Hg). Qed.
+Print Assumptions service_callbacks_cannot_abort.
+
+Theorem service_callback_would_abort_without_threshold :
+  exists c, c_module c <> 0 /\ c_done c = false /\ cb_aborts c = true /\ ~ wf c.
+Proof. exact callback_aborts_without_threshold. Qed.
+Print Assumptions service_callback_would_abort_without_threshold.
 
 (** Exactly once, at the due height: the logs of handled new-batch entries and of handled
     expirations are duplicate-free; every logged entry was handled by the end-blocker of its
@@ -301,16 +345,121 @@ Theorem service_check_hygiene_clause_sound :
 Proof. exact Queues.SoundService.hygiene_clause_holds_on_every_history. Qed.
 Print Assumptions service_check_hygiene_clause_sound.
 
+(** The model passes its own check — with no hypothesis on the history: the checker that is run
+    on the implementation's traces, fed the observations the MODEL produces, returns (-1,-1,0):
+    no divergence and no clause of the C13 predicate (41 abort, 42 hygiene, 43 every batch entry
+    handled once, at its height, with the batch started / completed) fires. *)
+Theorem model_passes_check_service :
+  forall h0 ops, Queues.CheckService.check_service (h0, Queues.PassService.mtrace (init h0) ops) = (-1, -1, 0).
+Proof. exact Queues.PassService.model_passes_check_service. Qed.
+Print Assumptions model_passes_check_service.
+
 (** non-vacuity: a repeated context (timeout 2, every 3 blocks, 2 batches) paused and restarted
     while its batch runs, a one-shot context answered in time, one whose consumer cannot pay *)
 Example service_nonvacuous :
-  let ops := [Call 1 0 2 true 3 2 Ok; Call 2 0 3 false 0 0 Ok; Call 3 1 2 false 0 0 Ok;
+  let ops := [Call 1 0 2 true 3 2 2 Ok; Call 2 0 3 false 0 0 1 Ok; Call 3 1 2 false 0 0 1 Ok;
               EndBlock [(1, NBStart 2); (2, NBStart 1); (3, NBNoFunds)];
-              Respond 2 Ok; Pause 1 0 Ok; EndBlock []; Start 1 0 Ok; EndBlock []; EndBlock [];
+              Respond 2 true true Ok; Pause 1 0 Ok; EndBlock []; Start 1 0 Ok; EndBlock []; EndBlock [];
               EndBlock [(1, NBStart 0)]; EndBlock []; EndBlock []] in
   let s := run (init 1) ops in
   map fst (ndone s) = [(1, 1); (1, 2); (1, 3); (4, 1)]
   /\ map fst (xdone s) = [(3, 1); (4, 2); (6, 1)]
   /\ map fst (ctxs s) = [3] /\ nq s = [] /\ xq s = [] /\ height s = 8.
 Proof. vm_compute. repeat split. Qed.
+(** non-vacuity with contexts owned by modules: an oracle feed (two providers, threshold 1,
+    timeout 2, every 3 blocks) started, answered by one provider only (callback with an output at
+    the expiration), edited, paused; a random oracle request started by random's begin blocker and
+    never answered (callback with an error at the expiration); a consumer message on a feed is
+    refused.  No block aborts. *)
+Example service_module_contexts_nonvacuous :
+  let ops := [CallM 1 0 1 2 true 3 (-1) 1 2 Ok; MStart 1 0 Ok; CallM 2 0 2 4 false 0 0 1 1 Ok; Pause 1 0 Rej;
+              EndBlock [(1, NBStart 2)]; MStart 2 0 Ok; Respond 1 true true Ok; EndBlock [(2, NBStart 1)];
+              EndBlock []; MUpdate 1 0 2 0 0 0 Ok; EndBlock [(1, NBStart 2)]; MPause 1 0 Ok;
+              EndBlock []; EndBlock []; EndBlock []] in
+  let s := run (init 1) ops in
+  map (fun o => snd (step (run (init 1) (firstn 4 ops)) o)) [Pause 1 0 Ok; Kill 1 0 Ok; Update 1 0 0 5 0 Ok] = [Rej; Rej; Rej]
+  /\ map fst (xdone s) = [(3, 1); (6, 2); (6, 1)] /\ map fst (ndone s) = [(1, 1); (2, 2); (4, 1)]
+  /\ map (fun x => (fst x, cstate_code (c_state (snd x)), c_thr (snd x))) (ctxs s) = [(1, 1, 2)]
+  /\ height s = 8.
+Proof. vm_compute. repeat split. Qed.
+
+(** the leak that is NOT a C13 violation: a repeated context killed between two batches loses its
+    new-batch entry at the entry's height (handled, exactly once) and then stays COMPLETED in the
+    store for ever, with no queue entry (corpus/C13/service-killed-between-batches-context-stays.jsonl
+    shows the same on the implementation). *)
+Example service_killed_between_batches_stays :
+  let ops := [Call 1 0 2 true 5 (-1) 1 Ok; EndBlock [(1, NBStart 1)]; EndBlock []; EndBlock []; Kill 1 0 Ok]
+             ++ repeat (EndBlock []) 40 in
+  let s := run (init 1) ops in
+  map (fun x => (fst x, cstate_code (c_state (snd x)))) (ctxs s) = [(1, 2)] /\ nq s = [] /\ xq s = []
+  /\ map fst (ndone s) = [(1, 1); (6, 1)].
+Proof. vm_compute. repeat split. Qed.
 End S.
+
+(** ** farm, linked to the full farm model of C05/C06 ([Farm/Model.v]): the two hypotheses of
+    module [F] ([op_wf]: AdjustPool's duration is not negative; [op_clean]: no Refund of the end
+    blocker fails in updatePool) are facts of that model. *)
+From Irismod Require Queues.LinkFarm.
+Module FL.
+Import Irismod.Farm.Proofs Irismod.Queues.LinkFarm.
+
+(** Every step of the full model from a state satisfying its invariant is matched by one CLEAN
+    operation of the queue model ([R]: same height, id sequence, queue entries, and per pool the
+    same start / end height, editable flag and creator; a pool closed in the queue model has no
+    budget left in the full model). *)
+Theorem farm_link_step :
+  forall fs qs st, inv fs -> valid_step st -> R fs qs -> QP.QInv qs ->
+    exists o, QP.op_clean o /\ R (step_state fs st) (fst (Q.step qs o)).
+Proof. exact sim_step. Qed.
+Print Assumptions farm_link_step.
+
+(** Every history of the full model (valid genesis, actors as senders — satisfiable:
+    [Props.C05.c05_nonvacuous]) is mirrored by a clean history of the queue model. *)
+Theorem farm_link_simulation :
+  forall b h steps, genesis_ok b h -> Forall valid_step steps ->
+    exists ops, Forall QP.op_clean ops /\ R (run (init b h) steps) (Q.run (Q.init h) ops).
+Proof. exact Irismod.Queues.LinkFarm.farm_link_simulation. Qed.
+Print Assumptions farm_link_simulation.
+
+(** Hence, with NO hypothesis on the history: in every reachable state of the full model the
+    abstract queue state satisfies [QInv] and has no stuck pool; a pool without queue entry has
+    ended at a height already reached, has no budget left (its Refund ran to the end) and has
+    no entry at all; a queued pool has exactly the entry of its end height, not behind the
+    current height. *)
+Theorem farm_exactly_once_unconditional :
+  forall s, reachable s ->
+  exists qs, R s qs /\ QP.QInv qs /\ QP.NoStuck qs
+  /\ (forall pid p, get pid (pools s) = Some p -> in_queue (queue s) (p_end p, pid) = false ->
+        p_end p <= height s /\ Forall (fun r => r_rem r = 0) (p_rules p) /\ forall e, in_queue (queue s) (e, pid) = false)
+  /\ (forall pid p, get pid (pools s) = Some p -> in_queue (queue s) (p_end p, pid) = true ->
+        height s <= p_end p /\ forall e, in_queue (queue s) (e, pid) = true -> e = p_end p).
+Proof. exact farm_full_model_exactly_once. Qed.
+Print Assumptions farm_exactly_once_unconditional.
+End FL.
+
+(** ** HTLC, linked to the full HTLC model of C03/C04 ([Htlc/Model.v]): the hypothesis of module
+    [H] ([op_clean]: no refund of a begin blocker returns an error) is a fact of that model. *)
+From Irismod Require Queues.LinkHtlc.
+Module HL.
+Import Irismod.Htlc.Model Irismod.Htlc.Proofs Irismod.Queues.LinkHtlc.
+
+(** Every operation of the full model from a state satisfying its invariant is matched by CLEAN
+    operations of the queue model ([R fs qs tbl]: [tbl] interns the structured contract ids as
+    numbers; related contracts agree on state, expiration height, closing block, transfer flag
+    and number of coins; the heights agree). *)
+Theorem htlc_link_step :
+  forall fs qs tbl o, Inv fs -> Strict fs -> wf_op o -> R fs qs tbl -> QP.QInv qs ->
+    exists qops tbl', Forall QP.op_clean qops /\ R (step fs o) (Q.run qs qops) tbl' /\ QP.QInv (Q.run qs qops).
+Proof. exact sim_step. Qed.
+Print Assumptions htlc_link_step.
+
+(** Every history of the full model (valid parameters, empty escrow at genesis, no module
+    account as sender or receiver — satisfiable: [Htlc/Examples.v]) is mirrored by a clean
+    history of the queue model, to which [H.htlc_queue_hygiene] and
+    [H.processed_exactly_once_htlc] therefore apply. *)
+Theorem htlc_link_simulation :
+  forall P b t0 ops, params_ok P -> escrow_empty b -> Forall wf_op ops ->
+    exists qops tbl, Forall QP.op_clean qops /\ R (reachable P b t0 ops) (Q.run (Q.init 1) qops) tbl.
+Proof. exact Irismod.Queues.LinkHtlc.htlc_link_simulation. Qed.
+Print Assumptions htlc_link_simulation.
+End HL.
